@@ -1,6 +1,6 @@
-CONSTANTS S = 16 Step = 4 MinN = 2 MaxN = 4 Degrees = {1, 2, 3}
+CONSTANTS S = 16 Families <- FamGuard
 CONSTANTS UpperClosed = TRUE FirstClosed = FALSE
-INIT InitGrids
+INIT InitAll
 NEXT Next
 INVARIANT InvC34
 INVARIANT InvReject
